@@ -10,7 +10,7 @@ import time
 
 import vlib
 from vlib import log
-from checks_clusterelect import mc
+from checks_clusterelect import mc, validate
 
 PROPS = ["C20"]
 
@@ -67,7 +67,7 @@ def run(pid, tier, seed):
         log("[V] %d runs did not start or did not finish their final observation" % summ["bad_runs"])
         if summ["bad_runs"] * 10 > summ["runs"]:
             raise vlib.ToolError("too many runs without a final observation (%d of %d)" % (summ["bad_runs"], summ["runs"]))
-    vb = vlib.validate_batch("Trace_RemoteActor", "Trace_RemoteActor.cfg", trace, "remoteactor_" + pid)
+    vb = validate("Trace_RemoteActor", "Trace_RemoteActor.cfg", trace, "remoteactor_" + pid)
     for viol in vb["violations"]:
         meta = json.loads(viol["run"][0]).get("meta", {})
         ev = viol.get("lenient_event") or viol.get("strict_event") or "{}"
